@@ -394,6 +394,7 @@ def run(chk, prog):
                    'than the runtime\'s 128 levels is returned as compiled although it cannot be loaded', sjs.loc(0))
 
     # ---------------- paths that name a weave label are rewritten when the label's container is hoisted
+    validated_tree_is_emitted(chk, prog)
     RH_ = 'C06.hoisted-label-paths-are-rewritten'
     chk.rule(RH_, 'When the continuation containers of a labelled gather are hoisted out of it, fix_divert_paths rewrites '
              'every path that still names the old place. It looks at a fixed list of object keys: every key under which '
@@ -851,3 +852,39 @@ def run(chk, prog):
                    'variables are looked up in %s' % sorted(declared),
                    'validate_expr_vars looks a variable name up only in %s, never in a set of declared variables: an '
                    'unknown variable is accepted and reads as 0 with a runtime warning' % sorted(lookups), ve.loc(0))
+
+
+def validated_tree_is_emitted(chk, prog):
+    RV = 'C06.validated-tree-is-the-emitted-tree'
+    chk.rule(RV, 'In every function of the compiler that calls both validator::validate and the emitter '
+             '(emitter::story_to_json_string), the two receive the same tree: the value handed to the emitter has exactly '
+             'the producers (constant folding, include resolution, parsing) of the value that was validated. A pass that '
+             'rewrites the tree between validation and emission (or validation of the tree before such a pass) lets the '
+             'emitter see divert targets and names the validator never looked at - a constant holding `-> nowhere` is '
+             'folded into the expressions that use it only by consts::resolve.')
+    lt = Tracer(prog, transparent=lambda cs: True, use_summaries=False)
+    n = 0
+    for fn in sorted(prog.fns.values(), key=lambda f: f.p):
+        if fn.crate != 'bladeink_compiler':
+            continue
+        vs = [(bb, t) for bb, t in fn.calls() if callee_short(t) == 'validator::validate' and t['args']]
+        es = [(bb, t) for bb, t in fn.calls() if callee_short(t) == 'emitter::story_to_json_string' and t['args']]
+        if not vs or not es:
+            continue
+        for eb, et in es:
+            n += 1
+            eat = {a for a in lt.prov(fn, et['args'][0]) if a.startswith(('call:', 'via:', 'arg:'))}
+            ok = False
+            seen = []
+            for vb, vt in vs:
+                vat = {a for a in lt.prov(fn, vt['args'][0]) if a.startswith(('call:', 'via:', 'arg:'))}
+                seen.append(sorted(eat ^ vat))
+                if vat == eat and cfg(fn).dominates(vb, eb):
+                    ok = True
+            chk.decide(RV, chk.key(RV, prog.root_fn(fn).short), ok,
+                       'the emitter receives the tree that was validated',
+                       '%s emits a tree that is not the one it validated (producers on one side only: %s): what the '
+                       'passes in between put into the tree reaches the compiled story unchecked'
+                       % (prog.root_fn(fn).short, ', '.join(x.split(':', 1)[1] for x in (seen[0] if seen else []))),
+                       fn.loc(eb))
+    chk.floor(RV, 'functions that validate and emit', n, 1)
